@@ -44,4 +44,16 @@ REGEX_RULES = {
             'RQ3: `execute_allowing_truncation(|| { CALL })` -> `execute_allowing_truncation({ let vq_fr = CALL; move || { vq_fr } })` '
             '(closure body hoisted: Verus has no closures capturing `&mut`; same computation because the callee invokes its '
             'FnOnce argument exactly once, first thing -- tied to the source by the `match f()` anchor in its contract)'),
+    # RQ4: closure annotation (cf. ZN2-ZN4, ZF2) for the parser closure of follow_cname_1,
+    # `|rdata| Name::try_from_uncompressed_all(rdata.octets())`.  An un-annotated closure has no
+    # postcondition in Verus.  The body is copied through the capture group (RQ1 then renames the
+    # accessor); parameter / return types and an `ensures` are added, and the `ensures` is CHECKED by
+    # Verus against the unchanged body (it is the contract of Name::try_from_uncompressed_all).
+    'RQ4': (r'\|(\w+)\|\s*(Name::try_from_uncompressed_all\(\1\.octets\(\)\))',
+            r'|\1: &Rdata| -> (res: core::result::Result<Box<Name>, crate::name::Error>) '
+            r'ensures (ulen(Rdata::octets(\1)) == Some(Rdata::octets(\1).len() as int) ==> res is Ok && res->Ok_0.wire() == Rdata::octets(\1) && res->Ok_0.wf()), '
+            r'(ulen(Rdata::octets(\1)) != Some(Rdata::octets(\1).len() as int) ==> res is Err) '
+            r'{ Name::try_from_uncompressed_all(\1.vq_octets()) }',
+            'RQ4: closure annotation for `|rdata| Name::try_from_uncompressed_all(rdata.octets())`: adds parameter/return '
+            'types and a checked ghost `ensures` (the callee\'s contract); the executable body is unchanged (accessor renamed as by RQ1)'),
 }
